@@ -1,8 +1,606 @@
 /-
-  C14 — concurrent queries and updates are safe and see whole objects.  (theorems: see below)
+  C14 — concurrent queries and updates are safe and see whole objects.
+
+  lmd achieves this by locking: a query takes the read locks of all tables it reads (`Request.affectedTables`,
+  taken by `lockStores` in list order, the list is sorted by table id) and holds them until the response is
+  serialised; an update applies the rows of one table under that table's write lock.
+
+  Part A (namespace `Lmd.C14`, about the model `Lmd.Locks` of `affectedTables`), for all schemas, tables, requests:
+   1  `reads_are_locked`, `reads_are_locked_id`, `reads_are_locked_of_schema`
+        every table whose rows the evaluation reads is read-locked
+   2  `locked_sorted`, `locked_nodup`      locks are taken in one global order, no table twice
+   3  `locked_are_needed`                  nothing is locked beyond the rule
+   4  `used_column_locked(_id)`, `filter_columns_locked(_id)`, `sort_columns_locked(_id)`,
+      `stats_columns_locked(_id)`, `stats_agg_columns_locked(_id)`, `waitcondition_columns_locked(_id)`,
+      `cross_virtual_locked(_id)`, `cross_virtual_ref_locked_id`, `filter_with_info_locked_id`
+        the cases that were defective: tables read through filters, sorting, stats, wait conditions and the
+        `*_with_info` / `*_with_state` columns
+
+  Part B (about the protocol model `Lmd.LockProto`), for every execution from an initial state:
+   5  `exclusion`, `exclusion_locks`       a write lock excludes readers and other writers
+   6  `snapshot`, `snapshot_consistent`, `held_version_stable`, `ghost_faithful`, `writes_need_lock`
+        all reads of one table by one query see the table as it was when the query locked it
+   7  `no_deadlock`, `no_deadlock_canProgress`, `progress_terminates`, `deadlock_without_order`
+        with ordered lock acquisition some process can always move forward, and after finitely many forward steps
+        everything is finished; without the order a deadlock is reachable
 -/
-import Lmd.Locks
+import Lmd.Lemmas.LockLemmas
+import Lmd.Lemmas.LockProtoLemmas
 
 namespace Lmd.C14
+open Lmd Lmd.LockLemmas
+
+export Lmd.LockLemmas (IdsInjective LeafIn)
+
+/-! ## a concrete schema and request for the examples -/
+
+def exHosts : Table :=
+  { name := "hosts", tid := 1,
+    cols := [{ name := "name", dtype := .str, storage := .loc }, { name := "state", dtype := .int, storage := .loc },
+             { name := "comments_with_info", dtype := .json, storage := .virt }] }
+
+def hostState : Column :=
+  { name := "host_state", dtype := .int, storage := .ref, refTable := "hosts", refCol := "state" }
+
+def hostComments : Column :=
+  { name := "host_comments_with_info", dtype := .json, storage := .ref, refTable := "hosts",
+    refCol := "comments_with_info" }
+
+def exServices : Table :=
+  { name := "services", tid := 2,
+    cols := [{ name := "description", dtype := .str, storage := .loc }, hostState, hostComments],
+    refs := [{ table := "hosts", cols := ["host_name"] }] }
+
+def exComments : Table :=
+  { name := "comments", tid := 0, cols := [{ name := "id", dtype := .int, storage := .loc }] }
+
+def exDowntimes : Table :=
+  { name := "downtimes", tid := 3, cols := [{ name := "id", dtype := .int, storage := .loc }] }
+
+def exSchema : Schema := { tables := [exComments, exHosts, exServices, exDowntimes] }
+
+/-- the term `host_state = 0` -/
+def exLeaf : Leaf := { col := hostState, op := .eq, sval := "0" }
+
+/-- `GET services / Columns: description / Filter: host_state = 0` -/
+def exReq : Request := { table := "services", columns := ["description"], filter := [.leaf exLeaf false] }
+
+/-- `GET services / Columns: description / Sort: host_state asc` -/
+def exReqSort : Request :=
+  { table := "services", columns := ["description"], sort := [{ name := "host_state", desc := false, col := some hostState }] }
+
+/-- `GET services / Stats: host_state = 0 / Stats: sum host_state` -/
+def exReqStats : Request :=
+  { table := "services", stats := [.counter (.grp true [.leaf exLeaf false] false), .agg .sum hostState false] }
+
+/-- `GET services / Columns: description / WaitCondition: host_state = 0` -/
+def exReqWait : Request := { table := "services", columns := ["description"], waitCondition := [.leaf exLeaf false] }
+
+/-- `GET services / Columns: description / Filter: host_comments_with_info != ""` -/
+def exReqInfo : Request :=
+  { table := "services", columns := ["description"],
+    filter := [.leaf { col := hostComments, op := .ne, sval := "" } false] }
+
+example : tablesRead exSchema exServices exReq = ["services", "hosts"] := by decide
+example : affectedTables exSchema exServices exReq = ["hosts", "services"] := by decide
+example : "hosts" ∈ affectedTables exSchema exServices exReq := by decide
+example : affectedTables exSchema exServices exReqInfo = ["comments", "hosts", "services", "downtimes"] := by decide
+
+/-! ## 1. every table that is read is locked -/
+
+/-- `reads_are_locked`: every table whose rows the evaluation of a request reads (the table itself and the tables
+    behind all columns used in the response, the filters, the stats, the wait condition and the sort keys) is
+    among the tables `lockStores` read-locks - provided different table names read by the request have different
+    table ids (`insertById` treats names with equal ids as one table; in lmd the id of a table is its position in
+    the list of table names, see `reads_are_locked_of_schema`). -/
+theorem reads_are_locked (s : Schema) (t : Table) (req : Request) (h : IdsInjective s (tablesRead s t req)) :
+    ∀ x ∈ tablesRead s t req, x ∈ affectedTables s t req := by
+  intro x hx
+  rw [affectedTables_eq, lockFold_append]
+  refine subset_lockFold _ (lockFold_exact _ [] ?_ hx)
+  rw [List.nil_append]
+  exact h
+
+example : IdsInjective exSchema (tablesRead exSchema exServices exReq) := by
+  unfold IdsInjective
+  decide
+
+/-- the hypothesis is needed: when two tables share one id, only the first name is put into the list -/
+example : ∃ s : Schema, ∃ x ∈ tablesRead s exServices exReq, x ∉ affectedTables s exServices exReq :=
+  ⟨{ tables := [{ exHosts with tid := 2 }, exServices] }, "hosts", by decide, by decide⟩
+
+/-- `reads_are_locked_id`: without any assumption, for every table that is read some locked table has the same
+    table id - that is, the same lock is held. -/
+theorem reads_are_locked_id (s : Schema) (t : Table) (req : Request) :
+    ∀ x ∈ tablesRead s t req, ∃ y ∈ affectedTables s t req, tableId s y = tableId s x := by
+  intro x hx
+  rw [affectedTables_eq, lockFold_append]
+  obtain ⟨y, hy, hid⟩ := lockFold_has_id (s := s) _ [] hx
+  exact ⟨y, subset_lockFold _ hy, hid⟩
+
+example : ∃ x, x ∈ tablesRead exSchema exServices exReq := ⟨"hosts", by decide⟩
+
+/-- `reads_are_locked_of_schema`: in a schema whose tables have pairwise different ids, a request that only reads
+    tables of the schema has all of them locked. -/
+theorem reads_are_locked_of_schema (s : Schema) (t : Table) (req : Request)
+    (hs : ∀ t1 ∈ s.tables, ∀ t2 ∈ s.tables, t1.tid = t2.tid → t1.name = t2.name)
+    (hn : ∀ n ∈ tablesRead s t req, (s.table? n).isSome = true) :
+    ∀ x ∈ tablesRead s t req, x ∈ affectedTables s t req :=
+  reads_are_locked s t req (idsInjective_of_schema hs hn)
+
+example : (∀ t1 ∈ exSchema.tables, ∀ t2 ∈ exSchema.tables, t1.tid = t2.tid → t1.name = t2.name) ∧
+    ∀ n ∈ tablesRead exSchema exServices exReq, (exSchema.table? n).isSome = true := by decide
+
+/-! ## 2. one global lock order -/
+
+/-- `locked_sorted`: the table ids of the locked tables are strictly increasing in the order in which the locks
+    are taken: every request takes its locks in the same global order, and no lock twice. -/
+theorem locked_sorted (s : Schema) (t : Table) (req : Request) :
+    ((affectedTables s t req).map (tableId s)).Pairwise (· < ·) := by
+  rw [List.pairwise_map, affectedTables_eq]
+  exact lockFold_sorted (s := s) _ (acc := []) List.Pairwise.nil
+
+example : (affectedTables exSchema exServices exReqInfo).map (tableId exSchema) = [0, 1, 2, 3] := by decide
+example : (affectedTables exSchema exServices exReq).map (tableId exSchema) = [1, 2] := by decide
+
+/-- `locked_nodup`: no table name occurs twice in the list of locked tables. -/
+theorem locked_nodup (s : Schema) (t : Table) (req : Request) : (affectedTables s t req).Nodup := by
+  have h := locked_sorted s t req
+  rw [List.pairwise_map] at h
+  exact h.imp (fun {a b} hab e => by rw [e] at hab; exact Nat.lt_irrefl _ hab)
+
+/-! ## 3. nothing else is locked -/
+
+/-- `locked_are_needed`: a locked table is the table of the request, a table read by one of the used columns, or -
+    when the request carries an `AuthUser` - a table the request's table refers to. -/
+theorem locked_are_needed (s : Schema) (t : Table) (req : Request) :
+    ∀ x ∈ affectedTables s t req,
+      x = t.name ∨ (∃ c ∈ usedColumns t req, x ∈ columnTables s c) ∨
+      (req.authUser ≠ "" ∧ ∃ r ∈ t.refs, r.table = x) := by
+  intro x hx
+  rw [affectedTables_eq] at hx
+  rcases mem_lockFold _ hx with h | h
+  · cases h
+  · rcases List.mem_append.1 h with h | h
+    · unfold tablesRead at h
+      rcases List.mem_cons.1 h with h | h
+      · exact Or.inl h
+      · obtain ⟨c, hc, hxc⟩ := List.mem_flatMap.1 h
+        exact Or.inr (Or.inl ⟨c, hc, hxc⟩)
+    · unfold authTables at h
+      split at h
+      · rename_i ha
+        obtain ⟨r, hr, hrx⟩ := List.mem_map.1 h
+        exact Or.inr (Or.inr ⟨by simpa using ha, r, hr, hrx⟩)
+      · cases h
+
+example : "hosts" ∈ affectedTables exSchema exServices { exReq with filter := [], authUser := "u" } ∧
+    "hosts" ∉ affectedTables exSchema exServices { exReq with filter := [] } := by decide
+
+/-! ## 4. the cases that were defective -/
+
+/-- `used_column_locked`: every table that a used column reads is locked (table ids injective on the tables read). -/
+theorem used_column_locked (s : Schema) (t : Table) (req : Request) (h : IdsInjective s (tablesRead s t req))
+    {c : Column} (hc : c ∈ usedColumns t req) {x : String} (hx : x ∈ columnTables s c) :
+    x ∈ affectedTables s t req :=
+  reads_are_locked s t req h x (tablesRead_of_used hc hx)
+
+/-- `used_column_locked_id`: for every table that a used column reads, a table with the same id (the same lock) is
+    locked. -/
+theorem used_column_locked_id (s : Schema) (t : Table) (req : Request)
+    {c : Column} (hc : c ∈ usedColumns t req) {x : String} (hx : x ∈ columnTables s c) :
+    ∃ y ∈ affectedTables s t req, tableId s y = tableId s x :=
+  reads_are_locked_id s t req x (tablesRead_of_used hc hx)
+
+/-- a term anywhere in a filter of the request is a used column -/
+theorem filter_leaf_used (t : Table) (req : Request) {f : Filter} (hf : f ∈ req.filter) {l : Leaf} (hl : LeafIn l f) :
+    l.col ∈ usedColumns t req := used_of_filter (leafIn_filtersColumns hf hl)
+
+/-- a term anywhere in a `Stats:` counter of the request is a used column -/
+theorem stats_leaf_used (t : Table) (req : Request) {f : Filter} (hf : StatsEntry.counter f ∈ req.stats) {l : Leaf}
+    (hl : LeafIn l f) : l.col ∈ usedColumns t req := used_of_stats (statsColumns_counter hf (leafIn_filterColumns hl))
+
+/-- a term anywhere in the wait condition of the request is a used column -/
+theorem wait_leaf_used (t : Table) (req : Request) {f : Filter} (hf : f ∈ req.waitCondition) {l : Leaf}
+    (hl : LeafIn l f) : l.col ∈ usedColumns t req := used_of_wait (leafIn_filtersColumns hf hl)
+
+/-- `filter_columns_locked`: a filter term anywhere in the request's filters on a reference column (such as
+    `host_state` of a service) has the referenced table locked. -/
+theorem filter_columns_locked (s : Schema) (t : Table) (req : Request) (h : IdsInjective s (tablesRead s t req))
+    {f : Filter} (hf : f ∈ req.filter) {l : Leaf} (hl : LeafIn l f) (hr : l.col.storage = .ref) :
+    l.col.refTable ∈ affectedTables s t req :=
+  used_column_locked s t req h (filter_leaf_used t req hf hl) (refTable_mem_columnTables s hr)
+
+/-- the same without the assumption on table ids: the lock of the referenced table is held -/
+theorem filter_columns_locked_id (s : Schema) (t : Table) (req : Request)
+    {f : Filter} (hf : f ∈ req.filter) {l : Leaf} (hl : LeafIn l f) (hr : l.col.storage = .ref) :
+    ∃ y ∈ affectedTables s t req, tableId s y = tableId s l.col.refTable :=
+  used_column_locked_id s t req (filter_leaf_used t req hf hl) (refTable_mem_columnTables s hr)
+
+example : Filter.leaf exLeaf false ∈ exReq.filter ∧ exLeaf.col.storage = .ref ∧ exLeaf.col.refTable = "hosts" :=
+  ⟨List.mem_cons_self, by decide, by decide⟩
+example : LeafIn exLeaf (.leaf exLeaf false) := .here false
+example : LeafIn exLeaf (.grp true [.leaf exLeaf false] false) := .inGrp List.mem_cons_self (.here false)
+
+/-- `sort_columns_locked`: a sort key that is a reference column has the referenced table locked. -/
+theorem sort_columns_locked (s : Schema) (t : Table) (req : Request) (h : IdsInjective s (tablesRead s t req))
+    {sf : SortField} (hs : sf ∈ req.sort) {c : Column} (hc : sf.col = some c) (hr : c.storage = .ref) :
+    c.refTable ∈ affectedTables s t req :=
+  used_column_locked s t req h (used_of_sort hs hc) (refTable_mem_columnTables s hr)
+
+/-- the same without the assumption on table ids -/
+theorem sort_columns_locked_id (s : Schema) (t : Table) (req : Request)
+    {sf : SortField} (hs : sf ∈ req.sort) {c : Column} (hc : sf.col = some c) (hr : c.storage = .ref) :
+    ∃ y ∈ affectedTables s t req, tableId s y = tableId s c.refTable :=
+  used_column_locked_id s t req (used_of_sort hs hc) (refTable_mem_columnTables s hr)
+
+example : affectedTables exSchema exServices exReqSort = ["hosts", "services"] ∧
+    IdsInjective exSchema (tablesRead exSchema exServices exReqSort) := by
+  unfold IdsInjective
+  decide
+
+/-- `stats_columns_locked`: a term anywhere in a `Stats:` counter on a reference column has the referenced table
+    locked. -/
+theorem stats_columns_locked (s : Schema) (t : Table) (req : Request) (h : IdsInjective s (tablesRead s t req))
+    {f : Filter} (hf : StatsEntry.counter f ∈ req.stats) {l : Leaf} (hl : LeafIn l f) (hr : l.col.storage = .ref) :
+    l.col.refTable ∈ affectedTables s t req :=
+  used_column_locked s t req h (stats_leaf_used t req hf hl) (refTable_mem_columnTables s hr)
+
+/-- the same without the assumption on table ids -/
+theorem stats_columns_locked_id (s : Schema) (t : Table) (req : Request)
+    {f : Filter} (hf : StatsEntry.counter f ∈ req.stats) {l : Leaf} (hl : LeafIn l f) (hr : l.col.storage = .ref) :
+    ∃ y ∈ affectedTables s t req, tableId s y = tableId s l.col.refTable :=
+  used_column_locked_id s t req (stats_leaf_used t req hf hl) (refTable_mem_columnTables s hr)
+
+/-- `stats_agg_columns_locked`: an aggregation (`Stats: sum host_state`) over a reference column has the referenced
+    table locked. -/
+theorem stats_agg_columns_locked (s : Schema) (t : Table) (req : Request) (h : IdsInjective s (tablesRead s t req))
+    {k : AggKind} {c : Column} {n : Bool} (hf : StatsEntry.agg k c n ∈ req.stats) (hr : c.storage = .ref) :
+    c.refTable ∈ affectedTables s t req :=
+  used_column_locked s t req h (used_of_stats (statsColumns_agg hf)) (refTable_mem_columnTables s hr)
+
+/-- the same without the assumption on table ids -/
+theorem stats_agg_columns_locked_id (s : Schema) (t : Table) (req : Request)
+    {k : AggKind} {c : Column} {n : Bool} (hf : StatsEntry.agg k c n ∈ req.stats) (hr : c.storage = .ref) :
+    ∃ y ∈ affectedTables s t req, tableId s y = tableId s c.refTable :=
+  used_column_locked_id s t req (used_of_stats (statsColumns_agg hf)) (refTable_mem_columnTables s hr)
+
+example : affectedTables exSchema exServices exReqStats = ["hosts", "services"] ∧
+    IdsInjective exSchema (tablesRead exSchema exServices exReqStats) := by
+  unfold IdsInjective
+  decide
+
+/-- `waitcondition_columns_locked`: a term anywhere in the wait condition on a reference column has the referenced
+    table locked. -/
+theorem waitcondition_columns_locked (s : Schema) (t : Table) (req : Request)
+    (h : IdsInjective s (tablesRead s t req))
+    {f : Filter} (hf : f ∈ req.waitCondition) {l : Leaf} (hl : LeafIn l f) (hr : l.col.storage = .ref) :
+    l.col.refTable ∈ affectedTables s t req :=
+  used_column_locked s t req h (wait_leaf_used t req hf hl) (refTable_mem_columnTables s hr)
+
+/-- the same without the assumption on table ids -/
+theorem waitcondition_columns_locked_id (s : Schema) (t : Table) (req : Request)
+    {f : Filter} (hf : f ∈ req.waitCondition) {l : Leaf} (hl : LeafIn l f) (hr : l.col.storage = .ref) :
+    ∃ y ∈ affectedTables s t req, tableId s y = tableId s l.col.refTable :=
+  used_column_locked_id s t req (wait_leaf_used t req hf hl) (refTable_mem_columnTables s hr)
+
+example : affectedTables exSchema exServices exReqWait = ["hosts", "services"] ∧
+    IdsInjective exSchema (tablesRead exSchema exServices exReqWait) := by
+  unfold IdsInjective
+  decide
+
+/-- `cross_virtual_locked`: a `*_with_info` / `*_with_state` column used anywhere in the request (response columns,
+    filters, stats, wait condition, sort keys) locks hosts, services, comments and downtimes. -/
+theorem cross_virtual_locked (s : Schema) (t : Table) (req : Request) (h : IdsInjective s (tablesRead s t req))
+    {c : Column} (hc : c ∈ usedColumns t req) (hv : isCrossVirtual c = true) :
+    "hosts" ∈ affectedTables s t req ∧ "services" ∈ affectedTables s t req ∧
+    "comments" ∈ affectedTables s t req ∧ "downtimes" ∈ affectedTables s t req := by
+  refine ⟨?_, ?_, ?_, ?_⟩ <;>
+    exact used_column_locked s t req h hc (cross_mem_columnTables s hv (by decide))
+
+/-- the same without the assumption on table ids: the four locks are held -/
+theorem cross_virtual_locked_id (s : Schema) (t : Table) (req : Request)
+    {c : Column} (hc : c ∈ usedColumns t req) (hv : isCrossVirtual c = true) :
+    ∀ x ∈ crossTables, ∃ y ∈ affectedTables s t req, tableId s y = tableId s x :=
+  fun _ hx => used_column_locked_id s t req hc (cross_mem_columnTables s hv hx)
+
+example : isCrossVirtual { name := "comments_with_info", dtype := .json, storage := .virt } = true := by decide
+
+/-- `cross_virtual_ref_locked_id`: a reference column whose target is a `*_with_info` / `*_with_state` column (such
+    as `host_comments_with_info` of a service) used anywhere in the request holds the locks of hosts, services,
+    comments and downtimes. -/
+theorem cross_virtual_ref_locked_id (s : Schema) (t : Table) (req : Request)
+    {c rc : Column} (hc : c ∈ usedColumns t req) (hr : c.storage = .ref)
+    (hrc : (s.table? c.refTable).bind (·.col? c.refCol) = some rc) (hv : isCrossVirtual rc = true) :
+    ∀ x ∈ crossTables, ∃ y ∈ affectedTables s t req, tableId s y = tableId s x :=
+  fun _ hx => used_column_locked_id s t req hc (cross_mem_columnTables_ref s hr hrc hv hx)
+
+example : hostComments ∈ usedColumns exServices exReqInfo ∧ hostComments.storage = .ref ∧
+    ((exSchema.table? hostComments.refTable).bind (·.col? hostComments.refCol)).any isCrossVirtual = true := by
+  decide
+
+/-- `filter_with_info_locked_id`: a filter term anywhere in the request's filters on a `*_with_info` /
+    `*_with_state` column holds the locks of hosts, services, comments and downtimes. -/
+theorem filter_with_info_locked_id (s : Schema) (t : Table) (req : Request)
+    {f : Filter} (hf : f ∈ req.filter) {l : Leaf} (hl : LeafIn l f) (hv : isCrossVirtual l.col = true) :
+    ∀ x ∈ crossTables, ∃ y ∈ affectedTables s t req, tableId s y = tableId s x :=
+  cross_virtual_locked_id s t req (filter_leaf_used t req hf hl) hv
+
+/-! ## Part B: the protocol -/
+
+open Lmd.LockProto
+
+/-- two queries (locks 1,2 and lock 2) and an update of table 2 (step number 7) -/
+def exProcs : List Proc :=
+  [.reader { want := [1, 2] }, .reader { want := [2] }, .writer { lock := 2, stepNo := 7 }]
+
+/-- a complete run: both queries lock, the update announces itself and has to wait for the second query, the first
+    query has to wait for the update, everybody finishes -/
+def exRun : List Action :=
+  [.rAcquire 0, .rAcquire 1, .wAnnounce 2, .rRead 1 2, .rRelease 1, .wAcquire 2, .wWrite 2, .wRelease 2,
+   .rAcquire 0, .rRead 0 1, .rRead 0 2, .rRead 0 2, .rRelease 0]
+
+example : Initial (initState exProcs) := initial_initState _ _ (by decide)
+example : SortedWants (initState exProcs) := sortedWants_of_B (by decide)
+
+/-- non-vacuity: the run is an execution, and it ends with everything finished -/
+example : ∃ s, Reach (initState exProcs) s ∧ allFinished s = true := by
+  have h : ((exec (initState exProcs) exRun).any allFinished) = true := by decide
+  obtain ⟨s, hs, hf⟩ := (Option.any_eq_true _ _).1 h
+  exact ⟨s, reach_exec exRun Reach.refl hs, hf⟩
+
+/-- in that run the first query cannot take lock 2 while the update waits for it -/
+example : ((exec (initState exProcs) (exRun.take 3)).any (fun s => enabled s (.rAcquire 0))) = false := by decide
+
+/-- what the first query saw: table 2 after the update (twice the same), table 1 untouched -/
+example : ((exec (initState exProcs) exRun).bind (·.procs[0]?)).any
+    (fun | .reader r => r.seen == [(2, 7), (2, 7), (1, 0)] | _ => false) = true := by decide
+
+/-! ## 5. exclusion -/
+
+/-- `exclusion`: in every reachable state, if a writer process holds lock `k` (it has taken the lock and not yet
+    released it) then no reader process holds `k`, no other writer process holds `k`, and the lock itself records
+    exactly this writer and no readers. -/
+theorem exclusion {s0 s : State} (h0 : Initial s0) (hr : Reach s0 s) {p : Nat} {w : Writer}
+    (hp : s.procs[p]? = some (.writer w)) (hh : w.phase = .holding ∨ w.phase = .written) :
+    (∀ (q : Nat) (r : Reader), s.procs[q]? = some (.reader r) → w.lock ∉ r.held) ∧
+    (∀ (q : Nat) (w' : Writer), s.procs[q]? = some (.writer w') → w'.lock = w.lock →
+        (w'.phase = .holding ∨ w'.phase = .written) → q = p) ∧
+    s.writer w.lock = some p ∧ s.readers w.lock = [] := by
+  have hi := inv_reach h0 hr
+  have h1 : s.writer w.lock = some p := (hi.writer_iff p w.lock).2 ⟨w, hp, rfl, hh⟩
+  have h2 : s.readers w.lock = [] := hi.excl p w.lock h1
+  refine ⟨?_, ?_, h1, h2⟩
+  · intro q r hq hm
+    have : q ∈ s.readers w.lock := (hi.readers_iff q w.lock).2 ⟨r, hq, hm⟩
+    rw [h2] at this
+    cases this
+  · intro q w' hq hl hh'
+    have : s.writer w.lock = some q := (hi.writer_iff q w.lock).2 ⟨w', hq, hl, hh'⟩
+    rw [h1] at this
+    exact (Option.some.inj this).symm
+
+/-- `exclusion_locks`: the same on the level of the locks - a lock with a writer has no readers; and whoever is
+    recorded at a lock is a process that believes to hold it. -/
+theorem exclusion_locks {s0 s : State} (h0 : Initial s0) (hr : Reach s0 s) (k : Nat) :
+    (∀ p, s.writer k = some p → s.readers k = []) ∧
+    (∀ p, p ∈ s.readers k ↔ ∃ r, s.procs[p]? = some (.reader r) ∧ k ∈ r.held) ∧
+    (∀ p, s.writer k = some p ↔
+      ∃ w, s.procs[p]? = some (.writer w) ∧ w.lock = k ∧ (w.phase = .holding ∨ w.phase = .written)) := by
+  have hi := inv_reach h0 hr
+  exact ⟨fun p => hi.excl p k, fun p => hi.readers_iff p k, fun p => hi.writer_iff p k⟩
+
+/-- non-vacuity: after `wAcquire` in the run above the writer holds lock 2 -/
+example : ((exec (initState exProcs) (exRun.take 6)).any
+    (fun s => s.writer 2 == some 2 && (s.readers 2).isEmpty && s.readers 1 == [0])) = true := by decide
+
+/-! ## 6. snapshot -/
+
+/-- `snapshot`: every version a query recorded for lock `k` is the version `k` had at the moment the query took
+    the lock (the ghost entry in `atAcquire`), and that entry is unique.  So all values a query reads from one
+    table come from the one state of the table at lock time; and since a table only changes in the single write
+    step of an update that holds the write lock (`writes_need_lock`), that state lies between complete update
+    batches: no object with columns from two update steps. -/
+theorem snapshot {s0 s : State} (h0 : Initial s0) (hr : Reach s0 s) {p : Nat} {r : Reader}
+    (hp : s.procs[p]? = some (.reader r)) {k v : Nat} (hs : (k, v) ∈ r.seen) :
+    (k, v) ∈ r.atAcquire ∧ ∀ v', (k, v') ∈ r.atAcquire → v' = v := by
+  have hi := inv_reach h0 hr
+  have h1 := hi.seen_sub p r hp (k, v) hs
+  exact ⟨h1, fun v' hv' => hi.acq_fun p r hp (k, v') hv' (k, v) h1 rfl⟩
+
+/-- `snapshot_consistent`: two reads of the same table by one query return the same version. -/
+theorem snapshot_consistent {s0 s : State} (h0 : Initial s0) (hr : Reach s0 s) {p : Nat} {r : Reader}
+    (hp : s.procs[p]? = some (.reader r)) {k v v' : Nat} (hs : (k, v) ∈ r.seen) (hs' : (k, v') ∈ r.seen) :
+    v = v' :=
+  ((snapshot h0 hr hp hs').2 v (snapshot h0 hr hp hs).1)
+
+/-- `held_version_stable`: while a query holds lock `k`, the table still has the version it had when the lock was
+    taken. -/
+theorem held_version_stable {s0 s : State} (h0 : Initial s0) (hr : Reach s0 s) {p : Nat} {r : Reader}
+    (hp : s.procs[p]? = some (.reader r)) {k : Nat} (hk : k ∈ r.held) : (k, s.version k) ∈ r.atAcquire := by
+  have hi := inv_reach h0 hr
+  obtain ⟨v, hv⟩ := hi.held_acq p r hp k hk
+  have := hi.acq_cur p r hp (k, v) hv hk
+  simp only at this
+  rw [this]
+  exact hv
+
+/-- `ghost_faithful`: the ghost field means what it says - `atAcquire` of a query changes only in the step in which
+    the query takes a lock, and then the lock and the version of the table at that moment are recorded. -/
+theorem ghost_faithful {s s' : State} {a : Action} (h : act s a = some s') {p : Nat} {r r' : Reader}
+    (hp : s.procs[p]? = some (.reader r)) (hp' : s'.procs[p]? = some (.reader r')) :
+    r'.atAcquire = r.atAcquire ∨
+    (a = .rAcquire p ∧ ∃ k, r'.atAcquire = (k, s.version k) :: r.atAcquire ∧ r'.held = k :: r.held ∧
+      r.want = k :: r'.want) := by
+  cases a with
+  | rAcquire q =>
+    obtain ⟨r0, k, rest, hr0, hw, _, _, rfl⟩ := act_rAcquire h
+    simp only [getElem?_set_of_some _ hr0] at hp'
+    by_cases e : p = q
+    · subst e
+      rw [if_pos rfl] at hp'
+      rw [hp] at hr0
+      cases hr0
+      cases hp'
+      exact Or.inr ⟨rfl, k, rfl, rfl, hw⟩
+    · rw [if_neg e, hp] at hp'
+      cases hp'
+      exact Or.inl rfl
+  | rRead q k =>
+    obtain ⟨r0, hr0, _, rfl⟩ := act_rRead h
+    simp only [getElem?_set_of_some _ hr0] at hp'
+    by_cases e : p = q
+    · subst e
+      rw [if_pos rfl] at hp'
+      rw [hp] at hr0
+      cases hr0
+      cases hp'
+      exact Or.inl rfl
+    · rw [if_neg e, hp] at hp'
+      cases hp'
+      exact Or.inl rfl
+  | rRelease q =>
+    obtain ⟨r0, hr0, _, _, rfl⟩ := act_rRelease h
+    simp only [getElem?_set_of_some _ hr0] at hp'
+    by_cases e : p = q
+    · subst e
+      rw [if_pos rfl] at hp'
+      rw [hp] at hr0
+      cases hr0
+      cases hp'
+      exact Or.inl rfl
+    · rw [if_neg e, hp] at hp'
+      cases hp'
+      exact Or.inl rfl
+  | wAnnounce q =>
+    obtain ⟨w, hw, _, rfl⟩ := act_wAnnounce h
+    simp only [getElem?_set_of_some _ hw] at hp'
+    by_cases e : p = q
+    · subst e
+      rw [hp] at hw
+      cases hw
+    · rw [if_neg e, hp] at hp'
+      cases hp'
+      exact Or.inl rfl
+  | wAcquire q =>
+    obtain ⟨w, hw, _, _, _, rfl⟩ := act_wAcquire h
+    simp only [getElem?_set_of_some _ hw] at hp'
+    by_cases e : p = q
+    · subst e
+      rw [hp] at hw
+      cases hw
+    · rw [if_neg e, hp] at hp'
+      cases hp'
+      exact Or.inl rfl
+  | wWrite q =>
+    obtain ⟨w, hw, _, rfl⟩ := act_wWrite h
+    simp only [getElem?_set_of_some _ hw] at hp'
+    by_cases e : p = q
+    · subst e
+      rw [hp] at hw
+      cases hw
+    · rw [if_neg e, hp] at hp'
+      cases hp'
+      exact Or.inl rfl
+  | wRelease q =>
+    obtain ⟨w, hw, _, rfl⟩ := act_wRelease h
+    simp only [getElem?_set_of_some _ hw] at hp'
+    by_cases e : p = q
+    · subst e
+      rw [hp] at hw
+      cases hw
+    · rw [if_neg e, hp] at hp'
+      cases hp'
+      exact Or.inl rfl
+
+/-- `writes_need_lock`: the content of a table changes only in the write step of an update process that holds the
+    table's write lock, and it changes to that update's step number as a whole. -/
+theorem writes_need_lock {s0 s s' : State} (h0 : Initial s0) (hr : Reach s0 s) {a : Action} (h : act s a = some s')
+    {k : Nat} (hv : s'.version k ≠ s.version k) :
+    ∃ p w, a = .wWrite p ∧ s.procs[p]? = some (.writer w) ∧ w.lock = k ∧ w.phase = .holding ∧
+      s.writer k = some p ∧ s.readers k = [] ∧ s'.version k = w.stepNo := by
+  cases a with
+  | rAcquire q => obtain ⟨_, _, _, _, _, _, _, rfl⟩ := act_rAcquire h; exact absurd rfl hv
+  | rRead q k => obtain ⟨_, _, _, rfl⟩ := act_rRead h; exact absurd rfl hv
+  | rRelease q => obtain ⟨_, _, _, _, rfl⟩ := act_rRelease h; exact absurd rfl hv
+  | wAnnounce q => obtain ⟨_, _, _, rfl⟩ := act_wAnnounce h; exact absurd rfl hv
+  | wAcquire q => obtain ⟨_, _, _, _, _, rfl⟩ := act_wAcquire h; exact absurd rfl hv
+  | wRelease q => obtain ⟨_, _, _, rfl⟩ := act_wRelease h; exact absurd rfl hv
+  | wWrite q =>
+    obtain ⟨w, hw, hph, rfl⟩ := act_wWrite h
+    simp only at hv
+    by_cases e : k = w.lock
+    · have hx := exclusion h0 hr hw (Or.inl hph)
+      refine ⟨q, w, rfl, hw, e.symm, hph, ?_, ?_, ?_⟩
+      · rw [e]; exact hx.2.2.1
+      · rw [e]; exact hx.2.2.2
+      · simp only [e, if_true]
+    · rw [if_neg e] at hv
+      exact absurd rfl hv
+
+/-- non-vacuity of `snapshot`: in the run above the first query has recorded versions -/
+example : ((exec (initState exProcs) exRun).bind (·.procs[0]?)).any
+    (fun | .reader r => r.atAcquire == [(2, 7), (1, 0)] && (2, 7) ∈ r.seen | _ => false) = true := by decide
+
+/-! ## 7. no deadlock -/
+
+/-- `no_deadlock`: if every query takes its locks in strictly increasing order (`locked_sorted`), then in every
+    reachable state in which some process has not finished, some process can do a step that moves it forward - an
+    action other than a read: take or release a lock, announce an update, write.  (Reads are excluded because a
+    query that holds a lock can always read; they are not progress.)  The model has writer preference as
+    `sync.RWMutex` has it, in the strongest form - a query cannot take a lock an update is waiting for - which is
+    the semantics under which the lock order matters (`deadlock_without_order`); under the simple semantics
+    without writer preference strictly fewer actions are blocked. -/
+theorem no_deadlock {s0 s : State} (h0 : Initial s0) (hs : SortedWants s0) (hr : Reach s0 s)
+    (hun : ∃ (p : Nat) (x : Proc), s.procs[p]? = some x ∧ x.finished = false) : ∃ s', ProgressStep s s' :=
+  progress (inv_reach h0 hr) (ordered_reach h0 hs hr) hun
+
+/-- `no_deadlock_canProgress`: the same with the executable tests - not all finished, so some action other than a
+    read is enabled. -/
+theorem no_deadlock_canProgress {s0 s : State} (h0 : Initial s0) (hs : SortedWants s0) (hr : Reach s0 s)
+    (hun : allFinished s = false) : canProgress s = true := by
+  obtain ⟨s', hs'⟩ := no_deadlock h0 hs hr (exists_unfinished_of_not_allFinished hun)
+  exact canProgress_of_progressStep hs'
+
+/-- non-vacuity: after three steps of the run above nobody has finished and such a step is enabled -/
+example : ((exec (initState exProcs) (exRun.take 3)).any (fun s => !allFinished s && canProgress s)) = true := by
+  decide
+
+/-- `progress_terminates`: in every execution from an initial state, the number of actions other than reads plus
+    the work that remains is the work there was at the start; and no work remains exactly when every process has
+    finished.  Together with `no_deadlock`: as long as something is unfinished a forward step is enabled, and after
+    `work s0` forward steps everything is finished - every query gets its answer, every update is applied. -/
+theorem progress_terminates {s0 s : State} (h0 : Initial s0) (as : List Action) (he : exec s0 as = some s) :
+    (as.filter Action.isProgress).length + work s = work s0 ∧ (work s = 0 ↔ allFinished s = true) :=
+  ⟨exec_work as (inv_init h0) he, work_eq_zero_iff s⟩
+
+/-- non-vacuity: the run above has 9 actions other than reads, the work at the start is 9 -/
+example : work (initState exProcs) = 9 ∧ (exRun.filter Action.isProgress).length = 9 ∧
+    ((exec (initState exProcs) exRun).any (fun s => work s == 0)) = true := by decide
+
+/-- two queries that take locks 1 and 2 in opposite orders, and an update for each of the two tables -/
+def exBadProcs : List Proc :=
+  [.reader { want := [1, 2] }, .reader { want := [2, 1] }, .writer { lock := 1, stepNo := 1 },
+   .writer { lock := 2, stepNo := 2 }]
+
+/-- `deadlock_without_order`: the order is needed.  With two queries locking tables 1 and 2 in opposite orders and
+    one pending update per table, a state is reachable in which nobody has finished and no forward step is enabled:
+    each query waits behind the update of its second table, each update waits for the other query. -/
+theorem deadlock_without_order :
+    Initial (initState exBadProcs) ∧
+    ∃ s, Reach (initState exBadProcs) s ∧ allFinished s = false ∧ ¬ ∃ s', ProgressStep s s' := by
+  refine ⟨initial_initState _ _ (by decide), ?_⟩
+  have h : ((exec (initState exBadProcs) [.rAcquire 0, .rAcquire 1, .wAnnounce 2, .wAnnounce 3]).any
+      (fun s => !allFinished s && !canProgress s)) = true := by decide
+  obtain ⟨s, hs, hf⟩ := (Option.any_eq_true _ _).1 h
+  simp only [Bool.and_eq_true, Bool.not_eq_true'] at hf
+  exact ⟨s, reach_exec _ Reach.refl hs, hf.1, fun ⟨s', hs'⟩ => by
+    rw [canProgress_of_progressStep hs'] at hf
+    exact Bool.noConfusion hf.2⟩
+
+example : ¬ SortedWants (initState exBadProcs) := fun h => by
+  have := h (.reader { want := [2, 1] }) (List.mem_cons_of_mem _ List.mem_cons_self) _ rfl
+  revert this
+  decide
 
 end Lmd.C14
